@@ -21,7 +21,7 @@ ASSUMPTIONS = ["spec/iec62386_tables.py is a faithful transcription of the stand
                "class names are the standard's command names in CamelCase as the library documents"]
 EXHAUSTIVE = {"quick": False, "thorough": True}
 REQUIRED_ANCHORS = {"all": ["encode_checked", "decode_checked", "flags_checked", "event_encode_checked",
-                            "classes_claimed", "stable_checked"]}
+                            "classes_claimed", "stable_checked", "import_surface_checked"]}
 SHARD_TIMEOUT = {"quick": 600, "thorough": 3000}
 
 
@@ -30,6 +30,7 @@ def plan(tier, seed):
     sh = [{"kind": "rows", "part": p, "of": n} for p in range(n)]
     sh += [{"kind": "events", "part": p, "of": 8} for p in range(8)]
     sh.append({"kind": "flags"})
+    sh.append({"kind": "import-surface"})
     return sh
 
 
@@ -69,6 +70,11 @@ def arg_sets(row, quick, r):
                     yield {"addr": d}, (lambda cls, A, d=d: cls(mk_addr(A, d)))
                     if d[0] == "GearShort":
                         yield {"addr": d}, (lambda cls, A, d=d: cls(d[1]))
+                    # the short names the module keeps for control gear (Short, Group, Broadcast, BroadcastUnaddressed)
+                    alias = {"GearShort": "Short", "GearGroup": "Group", "GearBroadcast": "Broadcast",
+                             "GearBroadcastUnaddressed": "BroadcastUnaddressed"}[d[0]]
+                    if d[1] in (None, 0, 15, 63):
+                        yield {"addr": d}, (lambda cls, A, d=d, alias=alias: cls(getattr(A, alias)() if d[1] is None else getattr(A, alias)(d[1])))
                 elif k == "stdn":
                     yield {"addr": d, "param": p}, (lambda cls, A, d=d, p=p: cls(mk_addr(A, d), p))
                 else:
@@ -149,6 +155,15 @@ def run_rows(desc, tier, seed, res):
                 continue
             res.hit("encode_checked")
             alive.append((obj, want, ref_args))
+            wb = want.to_bytes(row.width // 8, "big")
+            try:
+                pk, seq = obj.frame.pack, obj.frame.as_byte_sequence
+            except Exception as e:
+                pk, seq = repr(e), None
+            if pk != wb or seq != list(wb):
+                res.violation(f"C03/frame-bytes/{row.lib}",
+                              f"{row.name} {ref_args}: the bytes handed to a gateway are {pk!r} / {seq}, the standard's frame is {wb.hex()} "
+                              f"({row.width // 8} bytes, most significant first)", {"row": row.lib, "args": repr(ref_args)})
             if got != want or glen != row.width:
                 res.violation(f"C03/frame-bits/{row.lib}",
                               f"{row.name} {ref_args}: library emits {got:#0{row.width // 4 + 2}x} ({glen} bits), "
@@ -191,6 +206,50 @@ def run_rows(desc, tier, seed, res):
     if rows:
         res.sample({"row": rows[0].name, "part": rows[0].part, "kind": rows[0].kind, "opcode": rows[0].opcode,
                     "library_class": rows[0].lib})
+
+
+def run_import_surface(res):
+    """What an application gets from `import dali.gear` / `import dali.device` alone (nothing else imported): every command
+    of the standard's tables is registered and its frame decodes to the row's class."""
+    import subprocess
+    import sys
+    import json
+    import os
+    code = r'''
+import sys, json
+sys.path.insert(0, sys.argv[1]); sys.path.insert(0, sys.argv[2])
+import dali.gear, dali.device          # the two packages, nothing more
+from dali import command, frame
+from spec import iec62386_tables as T
+from models import cmd_ref
+out = []
+mods = sorted(m for m in sys.modules if m.startswith("dali."))
+for row in T.all_rows():
+    if row.kind in ("std", "stdn", "spc0", "spc1", "spca", "dev", "dsp0", "dsp1"):
+        args = {"std": {"addr": ("GearShort", 1)}, "stdn": {"addr": ("GearShort", 1), "param": 3}, "spc0": {}, "spc1": {"param": 7},
+                "spca": {"address": 5}, "dev": {"addr": ("DeviceShort", 1)}, "dsp0": {}, "dsp1": {"param": 9}}[row.kind]
+        want = cmd_ref.encode(row, **args)
+        back = command.from_frame(frame.ForwardFrame(row.width, want), devicetype=row.dt)
+        name = type(back).__module__.replace("dali.", "") + "." + type(back).__name__
+        if name != row.lib:
+            out.append([row.lib, row.dt, name])
+print(json.dumps({"bad": out, "modules": mods, "supported": sorted(command.Command._supported_devicetypes)}))
+'''
+    here = os.path.dirname(os.path.dirname(os.path.abspath(__file__)))
+    repo = os.environ.get("VERIF_REPO", "/repo")
+    p = subprocess.run([sys.executable, "-B", "-c", code, here, repo], capture_output=True, text=True, timeout=300)
+    res.evaluations += 1
+    res.hit("import_surface_checked")
+    if p.returncode != 0:
+        res.inconclusive.append("import-surface probe failed: " + p.stderr[-400:])
+        return
+    info = json.loads(p.stdout.strip().splitlines()[-1])
+    for lib, dt, name in info["bad"][:5]:
+        res.violation(f"C03/import-surface/{lib.split('.')[1] if '.' in lib else lib}",
+                      f"after `import dali.gear, dali.device` alone the standard's frame for {lib} (device type {dt}) decodes as {name}: "
+                      f"the module defining it is not loaded by the package ({len(info['bad'])} rows affected)",
+                      {"row": lib, "modules_loaded": info["modules"]})
+    res.extra["import_surface_modules"] = info["modules"]
 
 
 def run_flags(res):
@@ -359,4 +418,6 @@ def run_shard(desc, tier, seed):
         run_events(desc, tier, seed, res)
     elif k == "flags":
         run_flags(res)
+    elif k == "import-surface":
+        run_import_surface(res)
     return res
